@@ -26,9 +26,11 @@ def cat_table(cat):
 
 def variants(ch):
     s = {ch}
-    for v in (chr(ch).lower(), chr(ch).upper()):
-        if len(v) == 1 and ord(v) < 256:
-            s.add(ord(v))
+    for _round in range(2):
+        for c in list(s):
+            for v in (chr(c).lower(), chr(c).upper()):
+                if len(v) == 1 and ord(v) in ALPHA:
+                    s.add(ord(v))
     # _sre ignore-case: compare lower(ch) with lower(pattern char) plus the
     # fix table; inside latin-1 the only extra pair is micro sign / mu, which
     # leaves the alphabet.
@@ -57,7 +59,7 @@ def node_set(op, av, icase):
             elif o is sc.LITERAL:
                 base.add(a)
             elif o is sc.RANGE:
-                base |= set(range(a[0], min(a[1], 255) + 1))
+                base |= {c for c in ALPHA if a[0] <= c <= a[1]}
             elif o is sc.CATEGORY:
                 base |= cat_table(a)
             else:
